@@ -3,6 +3,8 @@ from ..core import digest_of
 from ..net import NetWorld, InTap, OutTap, Recorder, start_injector, close, gen_times
 from onl.netdev import TokenBucket, TwoRateTokenBucket
 
+from ..net import valid_workloads as valid  # noqa: E402,F401
+
 ID = 'C11'
 SHRINK_KEEP = ('rate', 'bucket', 'peak', 'cir', 'cbs', 'pir', 'pbs')   # configurations stay legal while minimising
 TIERS = {'quick': {'runs': 12000, 'budget_s': 30}, 'thorough': {'runs': 600000, 'budget_s': 600}}
